@@ -2,3 +2,4 @@ import NibiruModel.Prelude
 import NibiruModel.Epochs
 import NibiruModel.SdkDec
 import NibiruModel.Inflation
+import NibiruModel.Oracle
